@@ -559,7 +559,12 @@ class Interp:
                 except Exception:
                     new = Sym(f"({vtext(cur)}) {op} ({vtext(val)})")
             else:
-                new = Sym(f"({vtext(cur)}) <{op}> ({vtext(val)})")
+                sym = {"Add": "+", "Sub": "-", "BitOr": "|", "BitAnd": "&", "Mult": "*", "BitXor": "^", "Div": "/",
+                       "Mod": "%", "FloorDiv": "//"}.get(op, f"<{op}>")
+                try:
+                    new = Sym(ast.unparse(ast.parse(f"({vtext(cur)}) {sym} ({vtext(val)})", mode="eval").body))
+                except SyntaxError:
+                    new = Sym(f"({vtext(cur)}) {sym} ({vtext(val)})")
             self.emit(self._aug(st, cur, val))
             self.bind(st.target, new)
         elif isinstance(st, ast.Return):
